@@ -128,6 +128,20 @@ def gen(rng, nm, na):
             reclose_then_own_line(rng, c)
     for j in range(na):
         c = ctl.gen_scenario(rng, max_lines=5, ctrl="main")
+        if j % 5 == 4:
+            # targeted: a fully instrumented microgrid (ideal communication); a line inside it fails, is isolated (the microgrid's
+            # breaker recloses) and repaired; right before the repair a sensor on a neighbouring microgrid line fails, so that the
+            # poll that should put the repaired section back also has to revive that sensor
+            while not c["spec"].get("mg"):
+                c = ctl.gen_scenario(rng, max_lines=5, ctrl="main")
+            c["spec"]["mg"]["n"] = rng.choice([2, 3]); c["spec"]["mg"]["discon"] = True
+            c["spec"]["ctrl"].pop("nodev", None); c["spec"]["ctrl"].pop("ict", None)
+            dtq = F(c["dt"]); k0 = rng.randint(1, 3); rep = rng.choice([F(2), F(3)])
+            kr = k0 + math.ceil(rep / dtq)
+            c["faults"] = {str(k0): [["ML1", str(rep)]], str(kr - rng.choice([0, 1, 1])): [["SML0", str(rng.choice([F(3), F(6)]))]]}
+            c["n_inc"] = kr + int((F(c["spec"]["ctrl"]["T"]) + 6) / dtq) + 10
+            cases.append(c)
+            continue
         if j % 5 == 3:
             # targeted: every device reaches the controller through an ICT line of its own; one line fault; the ICT line of an
             # intelligent switch on the faulted line is out of service around the increment in which the repaired section is put back
